@@ -53,7 +53,13 @@ def main():
     # warm-up: one full extraction of the unpatched copy, so that every member has a fingerprint for this path; afterwards cargo itself
     # re-checks (and the driver re-emits) only the crates a patch changes and their dependents; all other fact files are the base tree's
     sh("rsync -a --delete --exclude /target --exclude /.git /repo/ %s/" % repo)
-    r = sh("%s/bin/extract.sh %s/warm %s %s/.cache/target" % (V, WORK, repo, V))
+    lock = open(V + "/.cache/lock", "w")
+    fcntl.flock(lock, fcntl.LOCK_EX)      # the extraction of a check / selftest running at the same time deletes member fingerprints
+    try:
+        r = sh("%s/bin/extract.sh %s/warm %s %s/.cache/target" % (V, WORK, repo, V))
+    finally:
+        fcntl.flock(lock, fcntl.LOCK_UN)
+        lock.close()
     if r.returncode:
         print("WARM-UP FAILED", r.stderr[-600:])
         return
